@@ -4,8 +4,9 @@
 -/
 import MitmVerif.Model.C14
 import MitmVerif.Lemmas.C14
+import MitmVerif.Lemmas.C14Hist
 namespace MitmVerif.Props.C14
-open MitmVerif MitmVerif.C14 MitmVerif.C14.Lemmas
+open MitmVerif MitmVerif.C14 MitmVerif.C14.Lemmas MitmVerif.C14.Hist
 
 variable {K : Codec}
 
@@ -178,6 +179,142 @@ theorem client_receives_exactly (L : Laws K) (s : St K) (c : K.σ) (d : Bytes) (
   · rw [q3, hss, hacc]
   · rw [cipherOf_append, cipherOf_sends, q1, hup, ← hse, ← q2, q6, q3, hss, hacc]
   · cases (K.send c d).1 <;> simp
+
+/-! ### whole connections: every event history from Start -/
+
+/-- the state a layer object starts in -/
+def init (K : Codec) (sd : Side) : St K := { side := sd }
+
+private theorem reach (L : Laws K) (env : Env K) (child : Child) (hfresh : ∀ c, env.mkTls = some c → Fresh L c)
+    (sd : Side) (evs : List Ev) (hc : (run env child (init K sd) evs).crashed = false) :
+    QG (run env child (init K sd) evs) ∧ TG L true (dataOf evs) [] (run env child (init K sd) evs) := by
+  refine ⟨QG_run env child evs _ (QG_init sd), ?_⟩
+  have := TGc_run env child hfresh evs (b := []) (s := init K sd) (Or.inr (TG_init L sd))
+  rcases this with h | h
+  · rw [hc] at h; cases h
+  · simpa using h
+
+/-- **child_stream_exact.**  For every event history from Start (handshake flights cut anywhere, ClientHello buffering,
+    events stored while ESTABLISHING, any interleaving of data, child commands, unrelated events and closes), any child
+    and any lawful engine whose connection object starts fresh, as long as no exception was raised: the events passed to
+    `event_to_child` are the events the child handled, then the stored ones (then, only after a failed client handshake, the
+    swallowed ones) — nothing lost, nothing twice, in order; their DataReceived payloads concatenate to a prefix
+    (`take (taken c)`) of the plaintext of ALL bytes received on the connection, so what the child has handled is a
+    prefix of the peer's plaintext stream; and when nothing is stored or swallowed it is exactly that prefix. -/
+theorem child_stream_exact (L : Laws K) (env : Env K) (child : Child) (hfresh : ∀ c, env.mkTls = some c → Fresh L c)
+    (sd : Side) (evs : List Ev) (hc : (run env child (init K sd) evs).crashed = false) :
+    let s := run env child (init K sd) evs
+    (∃ t, s.routed = s.toChild ++ s.queue ++ t ∧ (s.errored = false → t = []))
+    ∧ (queueing s = false → s.queue = [])
+    ∧ (∃ n rest, plainOf s.toChild ++ rest = (L.dec (dataOf evs)).1.take n)
+    ∧ (∀ c, s.tls = some c → L.fed c = dataOf evs ∧ plainOf s.routed = (L.dec (dataOf evs)).1.take (L.taken c))
+    ∧ (∀ c, s.tls = some c → s.errored = false → queueing s = false →
+          plainOf s.toChild = (L.dec (dataOf evs)).1.take (L.taken c)) := by
+  obtain ⟨q, t⟩ := reach L env child hfresh sd evs hc
+  obtain ⟨tl, htl, htl0⟩ := q.q1
+  refine ⟨q.q1, q.q2, ?_, ?_, ?_⟩
+  · cases hs : (run env child (init K sd) evs).tls with
+    | none =>
+      have := (t.tn hs).2.2.1
+      rw [htl, plainOf_append, plainOf_append] at this
+      have h0 : plainOf (run env child (init K sd) evs).toChild = [] :=
+        (List.append_eq_nil_iff.mp (List.append_eq_nil_iff.mp this).1).1
+      exact ⟨0, [], by simp [h0]⟩
+    | some c =>
+      have := (t.ts c hs).2.1
+      rw [htl, plainOf_append, plainOf_append] at this
+      exact ⟨L.taken c, _, by simpa [List.append_assoc] using this⟩
+  · intro c hs
+    have := t.ts c hs
+    exact ⟨this.1, by simpa using this.2.1⟩
+  · intro c hs he hq
+    have h1 := htl0 he
+    have h2 := q.q2 hq
+    have := (t.ts c hs).2.1
+    rw [htl, h1, h2] at this
+    simpa using this
+
+/-- **child_stream_complete.**  On a connection whose history raised no exception, a DataReceived that reaches
+    `receive_data` with nothing stored or swallowed and whose `recv` loop ends normally leaves the child with the COMPLETE
+    plaintext of everything received on the connection so far (history ++ this segment): no byte is held back. -/
+theorem child_stream_complete (L : Laws K) (env : Env K) (child : Child) (hfresh : ∀ c, env.mkTls = some c → Fresh L c)
+    (sd : Side) (evs : List Ev) (hc : (run env child (init K sd) evs).crashed = false) (c : K.σ) (d : Bytes)
+    (hs : (run env child (init K sd) evs).tls = some c) (he : (run env child (init K sd) evs).errored = false)
+    (hq : queueing (run env child (init K sd) evs) = false)
+    (hok : (recvLoop K (K.inPending (feedIf c d) + 1) (feedIf c d) []).2.1 ≠ .err) :
+    plainOf (receiveData child (run env child (init K sd) evs) d).toChild = (L.dec (dataOf evs ++ d)).1 := by
+  obtain ⟨_, _, _, h4, h5⟩ := child_stream_exact L env child hfresh sd evs hc
+  have hdir : (run env child (init K sd) evs).st = .establishing → (run env child (init K sd) evs).replyTo = true := by
+    intro hst
+    simp only [queueing, hst, isEst, Bool.true_and, Bool.not_eq_false'] at hq
+    exact hq
+  obtain ⟨P, hp1, ⟨rest, hp2⟩, hp3⟩ := child_receives_exactly L child _ c d hs hdir he
+  have hfed := (h4 c hs).1
+  rw [hfed] at hp2 hp3
+  rw [hp1, h5 c hs he hq]
+  have hlen := hp3 hok
+  obtain ⟨tt, htt⟩ := L.dec_mono (dataOf evs) d
+  have hle : L.taken c ≤ (L.dec (dataOf evs)).1.length := by
+    obtain ⟨_, tg⟩ := reach L env child hfresh sd evs hc
+    exact (tg.ts c hs).2.2.1
+  have h1 : (L.dec (dataOf evs)).1.take (L.taken c) = (L.dec (dataOf evs ++ d)).1.take (L.taken c) := by
+    rw [htt, List.take_append_of_le_length hle]
+  rw [h1]
+  have := List.take_append_drop (L.taken c) (L.dec (dataOf evs ++ d)).1
+  rw [hp2] at this
+  have hrest : rest = [] := by
+    have hl := congrArg List.length this
+    simp at hl
+    exact List.eq_nil_of_length_eq_zero (by omega)
+  rw [hrest] at this
+  simpa using this
+
+/-- **peer_stream_exact.**  For every event history from Start without an exception: the ciphertext this layer has
+    emitted on the tunnel connection is exactly what the engine produced, and the peer's reading of it is exactly the
+    concatenation of the child's SendData payloads that `sendall` accepted, in order (before a TLS object exists nothing
+    is emitted and nothing accepted). -/
+theorem peer_stream_exact (L : Laws K) (env : Env K) (child : Child) (hfresh : ∀ c, env.mkTls = some c → Fresh L c)
+    (sd : Side) (evs : List Ev) (hc : (run env child (init K sd) evs).crashed = false) :
+    let s := run env child (init K sd) evs
+    L.enc (cipherOf s.up) = s.accepted
+    ∧ (∀ c, s.tls = some c → cipherOf s.up = L.emitted c ∧ s.accepted = L.sent c) := by
+  obtain ⟨_, t⟩ := reach L env child hfresh sd evs hc
+  refine ⟨?_, ?_⟩
+  · cases hs : (run env child (init K sd) evs).tls with
+    | none =>
+      obtain ⟨_, _, _, _, h5, h6⟩ := t.tn hs
+      rw [h5, h6]; exact L.enc_nil
+    | some c =>
+      obtain ⟨_, _, _, h4, h5, h6, _⟩ := t.ts c hs
+      rw [h4, h5]; exact h6 rfl
+  · intro c hs
+    obtain ⟨_, _, _, h4, h5, _⟩ := t.ts c hs
+    exact ⟨h4, h5⟩
+
+/-- **close_last.**  On a connection whose history raised no exception, when a segment makes the peer's close_notify
+    visible (the `recv` loop ends with ZeroReturn) and nothing is stored or swallowed: the child is given, in this order,
+    the remaining plaintext (at most one DataReceived) and then exactly one ConnectionClosed; at that moment it holds
+    the COMPLETE plaintext of the whole connection, and the session's reading of the inbound stream says "closed". -/
+theorem close_last (L : Laws K) (env : Env K) (child : Child) (hfresh : ∀ c, env.mkTls = some c → Fresh L c)
+    (sd : Side) (evs : List Ev) (hc : (run env child (init K sd) evs).crashed = false) (c : K.σ) (d : Bytes)
+    (hs : (run env child (init K sd) evs).tls = some c) (he : (run env child (init K sd) evs).errored = false)
+    (hq : queueing (run env child (init K sd) evs) = false)
+    (hcl : (recvLoop K (K.inPending (feedIf c d) + 1) (feedIf c d) []).2.1 = .closed) :
+    let s := run env child (init K sd) evs
+    ∃ P, (receiveData child s d).toChild = s.toChild ++ (if P.isEmpty then [] else [.data P]) ++ [.closed]
+      ∧ plainOf (receiveData child s d).toChild = (L.dec (dataOf evs ++ d)).1
+      ∧ (L.dec (dataOf evs ++ d)).2 = true := by
+  have hdir : (run env child (init K sd) evs).st = .establishing → (run env child (init K sd) evs).replyTo = true := by
+    intro hst
+    simp only [queueing, hst, isEst, Bool.true_and, Bool.not_eq_false'] at hq
+    exact hq
+  obtain ⟨_, _, _, h4, _⟩ := child_stream_exact L env child hfresh sd evs hc
+  have hfed := (h4 c hs).1
+  obtain ⟨P, _, hcase⟩ := close_after_data L child _ c d hs hdir he
+  have hcomp := child_stream_complete L env child hfresh sd evs hc c d hs he hq (by rw [hcl]; simp)
+  rcases hcase with ⟨_, h2, h3, _⟩ | ⟨h1, _⟩
+  · exact ⟨P, h2, hcomp, by rw [← hfed]; exact h3⟩
+  · exact absurd hcl h1
 
 /-! ### non-vacuity: the law is satisfiable (a pass-through engine), and the theorems apply to it -/
 
